@@ -52,7 +52,7 @@ def main():
             with open(vr, "a", encoding="utf-8") as fh:
                 fh.write('\n#[path = "verif_sync.rs"]\npub mod sync;\n')
         os.makedirs(dst, exist_ok=True)
-        subprocess.check_call(["rsync", "-a", "--checksum", "--delete", "--exclude", "target", stage + "/", dst + "/"])
+        subprocess.check_call(["rsync", "-rlD", "--checksum", "--delete", "--exclude", "target", stage + "/", dst + "/"])
         print(f"instrument: {len([f for f in files if f])} files, {n_rewritten} std::sync paths rewritten ({'on' if rewrite else 'off'})")
     finally:
         shutil.rmtree(stage, ignore_errors=True)
